@@ -726,6 +726,10 @@ def rand_c11(seed, tier, cases=None):
         frames = [dict(len=rng.choice([1, 2, mtu - 4, mtu - 3, mtu - 1, mtu, mtu + 1, 2 * mtu, rng.randint(1, 3 * mtu), rng.randint(1, 15 * mtu) if mtu < 150 else 300]), salt=rng.randint(0, 200), fillv=rng.choice([-1, -1, -1, 255, 0, rng.randint(0, 255)])) for _ in range(rng.randint(1, 9))]
         for f in frames:
             f["len"] = max(1, f["len"])
+            if rng.random() < 0.12:
+                f["len"] = 0          # a call that emits nothing
+            if rng.random() < 0.15:
+                f["pidon"] = rng.random() < 0.5   # the application flips EnablePictureID
         out.append(dict(fam="C11", kind="payload", valid=True, mtu=mtu, pidon=rng.random() < 0.7, startid=rng.choice([0, 1, 120, 126, 127, 128, 300, 32760, 32766, 32767, rng.randint(0, 32767)]),
                         frames=frames, **{"class": "rand_payload"}))
     return out
